@@ -344,11 +344,11 @@ PROPS['C16'] = {
           'same with line_count() as the outer call, %d-byte texts' % n, cfg='sourcemap_verif')
         for n in (2, 3)
     ] + [
-        H('c16_lock_n2', 'sourceview', 'quick', 2400, 14,
+        H('c16_lock_n2', 'sourceview', 'quick', 3600, 28,
           'hook-independent variant: std::sync::Mutex::lock replaced (S7) by "let other threads run, then try_lock": every lock '
           'acquisition of get_line/line_count is a yield point; every 2-byte text, outer get_line(any)', cfg='sourcemap_verif'),
         H('c16_lock_count_n2', 'sourceview', 'thorough', 2400, 14, 'same with line_count() as the outer call', cfg='sourcemap_verif'),
-        H('c16_lock_n1', 'sourceview', 'thorough', 2400, 14, 'same, 1-byte texts', cfg='sourcemap_verif'),
+        H('c16_lock_n1', 'sourceview', 'quick', 3600, 24, 'same, 1-byte texts', cfg='sourcemap_verif'),
     ] + [
         H('c16_depth2_n%d' % n, 'sourceview', 'thorough', 3600, 14,
           'nested calls may themselves be interrupted once (depth 2), %d-byte texts' % n, cfg='sourcemap_verif')
